@@ -9,6 +9,8 @@ fresh contiguous arrays; this module re-runs a thinned version of every harness 
   shared     all 1-D arrays of one call that have the same length and dtype become columns of ONE C-ordered 2-D buffer
              (x and y share memory, both non-contiguous); arrays with equal content become the same object
   negstride  a view with a negative stride (a[::-1].copy()[::-1])
+  positional / keyword   the same call with keyword arguments passed by position / positional arguments passed by name,
+             according to the documented signatures recorded in mc/api_signatures.json (tools/gen_signatures.py)
   npscalar   Python bool / int / float parameters as NumPy scalars (np.bool_ / np.int64 / np.float64)
 
 The case checkers and reference models are untouched: they judge the results exactly as they judge them for
@@ -23,7 +25,54 @@ import pkgutil
 
 import numpy as np
 
-FORMS = ("strided", "readonly", "shared", "negstride", "npscalar")
+FORMS = ("strided", "readonly", "shared", "negstride", "npscalar", "positional", "keyword")
+_SIGS = None
+
+
+def _sigs():
+    global _SIGS
+    if _SIGS is None:
+        import json
+        import os
+        with open(os.path.join(os.path.dirname(os.path.abspath(__file__)), "api_signatures.json")) as f:
+            _SIGS = json.load(f)
+    return _SIGS
+
+
+def recall(fn, args, kwargs, form):
+    """the same call in the other calling convention, according to the DOCUMENTED signature (mc/api_signatures.json):
+    'positional' passes every keyword argument by position (filling skipped optional parameters with their documented
+    defaults), 'keyword' passes every argument after self by its documented name.  -> (args, kwargs, converted)"""
+    sig = _sigs().get("%s.%s" % (fn.__module__, fn.__qualname__))
+    if not sig or any(k in ("VAR_POSITIONAL", "POSITIONAL_ONLY") for _, k, _ in sig):
+        return args, kwargs, 0
+    names = [n for n, k, _ in sig if k == "POSITIONAL_OR_KEYWORD"]
+    defaults = {n: d for n, k, d in sig}
+    if form == "keyword":
+        first = 1 if names and names[0] in ("self", "cls") else 0
+        if len(args) <= first or len(args) > len(names):
+            return args, kwargs, 0
+        kw = dict(kwargs)
+        for n, v in zip(names[first:], args[first:]):
+            if n in kw:
+                return args, kwargs, 0
+            kw[n] = v
+        return tuple(args[:first]), kw, len(args) - first
+    kw = dict(kwargs)
+    out = list(args)
+    conv = 0
+    for n in names[len(args):]:
+        if not any(k in kw for k in names[names.index(n):]):
+            break
+        if n in kw:
+            out.append(kw.pop(n))
+            conv += 1
+        elif isinstance(defaults.get(n), dict):
+            out.append(defaults[n]["value"])
+        else:
+            break
+    return tuple(out), kw, conv
+
 CURRENT = None
 COUNT = {}
 _depth = 0
@@ -143,7 +192,10 @@ def _wrap(fn, is_method):
                 return fn(*args, **kwargs)
             finally:
                 _depth -= 1
-        args, kwargs, n = convert(args, kwargs, form, skip_first=is_method)
+        if form in ("positional", "keyword"):
+            args, kwargs, n = recall(fn, args, kwargs, form)
+        else:
+            args, kwargs, n = convert(args, kwargs, form, skip_first=is_method)
         if n:
             COUNT[form] = COUNT.get(form, 0) + n
         _depth += 1
